@@ -203,6 +203,26 @@ Qed.
 
 End RG.
 
+Lemma valid_strengthen : forall (J J' : sys -> Prop) (G : sys -> sys -> Prop) A
+  (P : sys -> Prop) (Q : A -> sys -> Prop) (p : prog A),
+  (forall s, J' s -> J s) -> valid J G P Q p -> valid J' G P Q p.
+Proof.
+  intros J J' G A P Q p Hj Hv. induction Hv as [P Q a Hs Hq|P Q o k R Hs Hstep Hk IH].
+  - apply v_ret; [intros s s' Js Ps Hg; eapply Hs; [apply Hj; exact Js|exact Ps|exact Hg]|].
+    intros s Js Ps. apply Hq; [apply Hj; exact Js|exact Ps].
+  - apply (v_op _ _ _ _ _ _ R); [intros s s' Js Ps Hg; eapply Hs; [apply Hj; exact Js|exact Ps|exact Hg]| |exact IH].
+    intros s torn Js Ps. apply Hstep; [apply Hj; exact Js|exact Ps].
+Qed.
+
+Lemma valid_post_mono : forall (J : sys -> Prop) (G : sys -> sys -> Prop) A
+  (P : sys -> Prop) (Q Q' : A -> sys -> Prop) (p : prog A),
+  valid J G P Q p -> (forall a s, Q a s -> Q' a s) -> valid J G P Q' p.
+Proof.
+  intros J G A P Q Q' p Hv Hq. induction Hv as [P Q0 a Hs Hr|P Q0 o k R Hs Hstep Hk IH].
+  - apply v_ret; [exact Hs|]. intros s Js Ps. apply Hq. apply Hr; assumption.
+  - apply (v_op _ _ _ _ _ _ R); [exact Hs|exact Hstep|]. intros r. apply IH. exact Hq.
+Qed.
+
 (* ---- torn views of a file that only grows along its content *)
 Lemma mix_prefix : forall j (c o : bytes), is_prefix o c -> is_prefix (mix j c o) c /\ is_prefix o (mix j c o).
 Proof.
@@ -264,16 +284,23 @@ Definition Jc (s : sys) : Prop :=
   (forall id o, slast s (IdxP id) = Some o -> exists c, sfiles s (IdxP id) = Some c /\ c <> []).
 
 (* no file disappears, output files only grow, a non-empty index file stays non-empty *)
+(* ... and the content remembered as "before the most recent write" of a file is left alone,
+   forgotten, or becomes the content the file has just had *)
+Definition last_rel (s s' : sys) (p : path) (c : bytes) : Prop :=
+  slast s' p = slast s p \/ slast s' p = None \/ slast s' p = Some c.
+
 Definition grows (s s' : sys) : Prop :=
   forall p c, sfiles s p = Some c ->
     exists c', sfiles s' p = Some c' /\
-      match p with DatP _ => is_prefix c c' | IdxP _ => c <> [] -> c' <> [] end.
+      match p with DatP _ => is_prefix c c' | IdxP _ => c <> [] -> c' <> [] end /\
+      last_rel s s' p c.
 
 Definition Gc (s s' : sys) : Prop := grows s s' /\ (Jc s -> Jc s').
 
 Lemma Gc_refl : forall s, Gc s s.
 Proof.
-  intros s. split; [|auto]. intros p c Hc. exists c. split; [exact Hc|]. destruct p; [auto|apply prefix_refl].
+  intros s. split; [|auto]. intros p c Hc. exists c. split; [exact Hc|].
+  split; [destruct p; [auto|apply prefix_refl]|left; reflexivity].
 Qed.
 
 Lemma Gc_J : forall s s', Jc s -> Gc s s' -> Jc s'.
@@ -287,7 +314,7 @@ Proof. intros. unfold updl. rewrite path_eqb_neq by assumption. reflexivity. Qed
 (* a complete output is known to be complete for ever *)
 Lemma complete_stable : forall d, U d -> stable Jc Gc (fun s => sfiles s (DatP (H d)) = Some d).
 Proof.
-  intros d Ud s s' Js Hc [Hg Hj]. destruct (Hg _ _ Hc) as (c' & Hc' & Hp). cbn in Hp.
+  intros d Ud s s' Js Hc [Hg Hj]. destruct (Hg _ _ Hc) as (c' & Hc' & Hp & _). cbn in Hp.
   destruct (Hj Js) as (Hi1 & _). destruct (Hi1 _ _ Hc') as (d0 & Ud0 & Hh & Hp0).
   assert (d0 = d) by (apply H_inj; assumption). subst d0.
   rewrite Hc'. f_equal. apply prefix_full; [exact Hp0|].
@@ -300,7 +327,7 @@ Definition at_least (d : bytes) (off : nat) (s : sys) : Prop :=
 
 Lemma at_least_stable : forall d off, U d -> stable Jc Gc (at_least d off).
 Proof.
-  intros d off Ud s s' Js (c & Hc & Hp & Hl) [Hg Hj]. destruct (Hg _ _ Hc) as (c' & Hc' & Hp'). cbn in Hp'.
+  intros d off Ud s s' Js (c & Hc & Hp & Hl) [Hg Hj]. destruct (Hg _ _ Hc) as (c' & Hc' & Hp' & _). cbn in Hp'.
   destruct (Hj Js) as (Hi1 & _). destruct (Hi1 _ _ Hc') as (d0 & Ud0 & Hh & Hp0).
   assert (d0 = d) by (apply H_inj; assumption). subst d0.
   exists c'. split; [exact Hc'|]. split; [exact Hp0|]. apply prefix_length in Hp'. lia.
@@ -314,7 +341,7 @@ Proof. intros id s s' _ (c & Hc) [Hg _]. destruct (Hg _ _ Hc) as (c' & Hc' & _).
 
 Lemma idx_nonempty_stable : forall id, stable Jc Gc (idx_nonempty id).
 Proof.
-  intros id s s' _ (c & Hc & Hn) [Hg _]. destruct (Hg _ _ Hc) as (c' & Hc' & Hp). exists c'. split; [exact Hc'|]. apply Hp. exact Hn.
+  intros id s s' _ (c & Hc & Hn) [Hg _]. destruct (Hg _ _ Hc) as (c' & Hc' & Hp & _). exists c'. split; [exact Hc'|]. apply Hp. exact Hn.
 Qed.
 
 Lemma and_stable : forall (P Q : sys -> Prop), stable Jc Gc P -> stable Jc Gc Q -> stable Jc Gc (fun s => P s /\ Q s).
@@ -396,9 +423,16 @@ Proof.
     + rewrite updl_other in Ho by exact N. apply (Hj5 id o Ho).
 Qed.
 
-Lemma grows_same_files : forall s s', sfiles s' = sfiles s -> grows s s'.
+Lemma grows_same_files : forall s s', sfiles s' = sfiles s ->
+  (forall p, slast s' p = slast s p \/ slast s' p = None) -> grows s s'.
 Proof.
-  intros s s' E p c Hc. exists c. rewrite E. split; [exact Hc|]. destruct p; [auto|apply prefix_refl].
+  intros s s' E El p c Hc. exists c. rewrite E. split; [exact Hc|].
+  split; [destruct p; [auto|apply prefix_refl]|]. destruct (El p) as [L|L]; [left; exact L|right; left; exact L].
+Qed.
+
+Lemma updl_none_rel : forall l p q, updl l p None q = l q \/ updl l p None q = None.
+Proof.
+  intros l p q. destruct (path_eq_dec q p) as [->|N]; [right; apply updl_same|left; apply updl_other; exact N].
 Qed.
 
 (* observing operations and Close/Chtimes change nothing *)
@@ -407,15 +441,15 @@ Lemma cstep_observe : forall o torn s,
   Gc s (fst (cstep o torn s)).
 Proof.
   intros o torn s Ho. destruct o; try contradiction; cbn [cstep fst step]; try apply Gc_refl.
-  - split; [apply grows_same_files; reflexivity|]. destruct s; auto.
-  - split; [apply grows_same_files; reflexivity|]. destruct s; auto.
+  - split; [apply grows_same_files; [reflexivity|intros q; left; reflexivity]|]. destruct s; auto.
+  - split; [apply grows_same_files; [reflexivity|intros q; left; reflexivity]|]. destruct s; auto.
 Qed.
 
 (* opening for reading *)
 Lemma cstep_open_ro : forall p torn s, Gc s (fst (cstep (OOpen p false false) torn s)).
 Proof.
   intros p torn s. cbn [cstep step op_path]. destruct (sfiles s p); cbn [fst];
-    (split; [apply grows_same_files; reflexivity|intros Js; apply (Jc_reset_last s p Js)]).
+    (split; [apply grows_same_files; [reflexivity|intros q; apply updl_none_rel]|intros Js; apply (Jc_reset_last s p Js)]).
 Qed.
 
 Lemma cstep_open_ro_res : forall p torn s,
@@ -430,14 +464,15 @@ Proof.
   intros d torn s Ud Js. cbn [cstep step op_path].
   destruct (sfiles s (DatP (H d))) as [c|] eqn:Ec; cbn [fst snd].
   - split; [|split; [reflexivity|]].
-    + split; [apply grows_same_files; reflexivity|intros _; apply (Jc_reset_last s _ Js)].
+    + split; [apply grows_same_files; [reflexivity|intros q; apply updl_none_rel]|intros _; apply (Jc_reset_last s _ Js)].
     + destruct Js as (Hi1 & _). destruct (Hi1 _ _ Ec) as (d0 & Ud0 & Hh & Hp).
       assert (d0 = d) by (apply H_inj; assumption). subst d0.
       exists c. cbn [sfiles]. split; [exact Ec|]. split; [exact Hp|lia].
   - split; [|split; [reflexivity|]].
     + split.
       * intros p c Hc. exists c. cbn [sfiles]. rewrite upd_other by (intros ->; congruence).
-        split; [exact Hc|]. destruct p; [auto|apply prefix_refl].
+        split; [exact Hc|]. split; [destruct p; [auto|apply prefix_refl]|].
+        left. cbn [slast]. apply updl_other. intros ->; congruence.
       * intros _. apply (Jc_upd_dat s d [] None Js Ud (prefix_nil d)); [intros c Hc; congruence|intros o Ho; discriminate].
     + exists []. cbn [sfiles]. rewrite upd_same. split; [reflexivity|]. split; [apply prefix_nil|cbn; lia].
 Qed.
@@ -449,11 +484,12 @@ Proof.
   intros id torn s Js. cbn [cstep step op_path].
   destruct (sfiles s (IdxP id)) as [c|] eqn:Ec; cbn [fst snd].
   - split; [|split; [reflexivity|exists c; exact Ec]].
-    split; [apply grows_same_files; reflexivity|intros _; apply (Jc_reset_last s _ Js)].
+    split; [apply grows_same_files; [reflexivity|intros q; apply updl_none_rel]|intros _; apply (Jc_reset_last s _ Js)].
   - split; [|split; [reflexivity|exists []; cbn [sfiles]; apply upd_same]].
     split.
     + intros p c Hc. exists c. cbn [sfiles]. rewrite upd_other by (intros ->; congruence).
-      split; [exact Hc|]. destruct p; [auto|apply prefix_refl].
+      split; [exact Hc|]. split; [destruct p; [auto|apply prefix_refl]|].
+      left. cbn [slast]. apply updl_other. intros ->; congruence.
     + intros _. apply (Jc_upd_idx s id [] None Js); [left; reflexivity|intros o Ho; discriminate].
 Qed.
 
@@ -468,8 +504,10 @@ Proof.
   split; [|split; [reflexivity|]].
   - split.
     + intros p c0 Hc0. cbn [sfiles]. destruct (path_eq_dec p (DatP (H d))) as [->|N].
-      * rewrite upd_same. rewrite Ec in Hc0. inversion Hc0; subst. eexists. split; [reflexivity|exact P2].
-      * rewrite upd_other by exact N. exists c0. split; [exact Hc0|]. destruct p; [auto|apply prefix_refl].
+      * rewrite upd_same. rewrite Ec in Hc0. inversion Hc0; subst. eexists. split; [reflexivity|].
+        split; [exact P2|]. right. right. cbn [slast]. apply updl_same.
+      * rewrite upd_other by exact N. exists c0. split; [exact Hc0|].
+        split; [destruct p; [auto|apply prefix_refl]|]. left. cbn [slast]. apply updl_other. exact N.
     + intros _. apply (Jc_upd_dat s d _ (Some c) Js Ud P1).
       * intros c0 Hc0. rewrite Ec in Hc0. inversion Hc0; subst. exact P2.
       * intros o Ho. inversion Ho; subst. exact P2.
@@ -492,8 +530,10 @@ Proof.
   split; [|split; [reflexivity|split]].
   - split.
     + intros p c0 Hc0. cbn [sfiles]. destruct (path_eq_dec p (IdxP id)) as [->|N].
-      * rewrite upd_same. eexists. split; [reflexivity|]. intros _. apply entry_nonempty.
-      * rewrite upd_other by exact N. exists c0. split; [exact Hc0|]. destruct p; [auto|apply prefix_refl].
+      * rewrite upd_same. eexists. split; [reflexivity|]. split; [intros _; apply entry_nonempty|].
+        right. right. cbn [slast]. rewrite updl_same. congruence.
+      * rewrite upd_other by exact N. exists c0. split; [exact Hc0|].
+        split; [destruct p; [auto|apply prefix_refl]|]. left. cbn [slast]. apply updl_other. exact N.
     + intros _. apply (Jc_upd_idx s id _ (Some c) Js).
       * right. exists d, tm. auto.
       * intros o Ho. inversion Ho; subst. split; [exact Hgc|apply entry_nonempty].
@@ -514,8 +554,10 @@ Proof.
     apply firstn_all2. rewrite E1, (entry_length _ _ _ Hp1). lia. }
   rewrite Et. split; [|reflexivity]. split.
   - intros p c0 Hc0. cbn [sfiles]. destruct (path_eq_dec p (IdxP id)) as [->|N].
-    + rewrite upd_same. rewrite Ec in Hc0. inversion Hc0; subst. eexists. split; [reflexivity|auto].
-    + rewrite upd_other by exact N. exists c0. split; [exact Hc0|]. destruct p; [auto|apply prefix_refl].
+    + rewrite upd_same. rewrite Ec in Hc0. inversion Hc0; subst. eexists. split; [reflexivity|].
+      split; [auto|]. right. left. cbn [slast]. apply updl_same.
+    + rewrite upd_other by exact N. exists c0. split; [exact Hc0|].
+      split; [destruct p; [auto|apply prefix_refl]|]. left. cbn [slast]. apply updl_other. exact N.
   - intros _. apply (Jc_upd_idx s id c None Js).
     + right. exists d1, t1. auto.
     + intros o Ho. discriminate.
@@ -740,10 +782,11 @@ Proof.
                                        | RSize n => (n <= length d)%nat /\ (n = length d -> sfiles s pd = Some d)
                                        | _ => True end)); [stab| |].
   { intros s torn Js _. split; [apply (cstep_observing (OStat pd) torn s I)|].
-    cbn [cstep fst snd]. destruct (view s pd torn) as [v|] eqn:Ev; [|exact I].
-    destruct (view_dat s d torn v Js Ud Ev) as (c & Ec & Hv & Hc).
-    pose proof (prefix_length _ _ Hv). pose proof (prefix_length _ _ Hc). split; [lia|].
-    intros E. unfold pd. rewrite Ec. f_equal. apply prefix_full; [exact Hc|lia]. }
+    cbn [cstep fst snd]. destruct (sfiles s pd) as [c|] eqn:Ec; [|exact I].
+    destruct Js as (Hi1 & _). destruct (Hi1 _ _ Ec) as (d0 & Ud0 & Hh & Hc).
+    assert (d0 = d) by (apply H_inj; assumption). subst d0.
+    pose proof (prefix_length _ _ Hc). split; [lia|].
+    intros E. f_equal. apply prefix_full; [exact Hc|lia]. }
   intros r. destruct r; try (apply Hrw'; stab).
   destruct (Nat.eqb n (length d)) eqn:En.
   - apply Nat.eqb_eq in En. subst n.
@@ -998,6 +1041,520 @@ Proof.
   intros l s Hb. split; [exact I|exact Hb].
 Qed.
 
+Lemma Forall2_nth : forall A B (R : A -> B -> Prop) l1 l2 k a b,
+  Forall2 R l1 l2 -> nth_error l1 k = Some a -> nth_error l2 k = Some b -> R a b.
+Proof.
+  intros A B R l1 l2 k a b Hf. revert k. induction Hf as [|x y l1 l2 Hxy Hf IH]; intros k Ha Hb.
+  - destruct k; discriminate.
+  - destruct k as [|k]; cbn in *; [inversion Ha; inversion Hb; subst; exact Hxy|eapply IH; eassumption].
+Qed.
+
+Lemma Forall2_len : forall A B (R : A -> B -> Prop) l1 l2, Forall2 R l1 l2 -> length l1 = length l2.
+Proof. intros A B R l1 l2 Hf. induction Hf; cbn; congruence. Qed.
+
+(* ---- GetFile interleaved with the writers: the same byte-wise argument, keeping track of the
+   fact that the outputs of the entries seen are complete *)
+Definition pwc (id e : bytes) (s : sys) : Prop :=
+  forall i b, nth_error e i = Some b ->
+    exists d tm, PS id d tm /\ sfiles s (DatP (H d)) = Some d /\ nth_error (entry id d tm) i = Some b.
+
+Lemma pwc_stable : forall id e, stablec (pwc id e).
+Proof.
+  intros id e s s' Js Hp Hg i b Hn. destruct (Hp i b Hn) as (d & tm & Hps & Hf & He).
+  exists d, tm. split; [exact Hps|]. split; [|exact He].
+  destruct (PS_ok _ _ _ Hps) as (Ud & _). exact (complete_stable d Ud s s' Js Hf Hg).
+Qed.
+
+Lemma pwc_nil : forall id s, pwc id [] s.
+Proof. intros id s i b Hn. destruct i; discriminate. Qed.
+
+Lemma pwc_good : forall s id c, good_idx (sfiles s) id c -> pwc id c s.
+Proof. intros s id c [->|(d & tm & Hps & -> & Hf)]; [apply pwc_nil|]. intros i b Hn. exists d, tm. auto. Qed.
+
+Lemma pwc_mix : forall id j c o s, pwc id c s -> pwc id o s -> (length o <= length c)%nat -> pwc id (mix j c o) s.
+Proof.
+  intros id j c o s Hc Ho Hl i b Hn. unfold mix in Hn.
+  destruct (le_lt_dec (length c) j) as [L|L].
+  - rewrite firstn_all2 in Hn by exact L. rewrite skipn_all2 in Hn by lia. rewrite app_nil_r in Hn. apply Hc. exact Hn.
+  - assert (length (firstn j c) = j) as Lf by (rewrite firstn_length; lia).
+    destruct (lt_dec i j) as [Li|Li].
+    + rewrite nth_error_app1 in Hn by lia. apply Hc. eapply nth_error_firstn_some; exact Hn.
+    + rewrite nth_error_app2 in Hn by lia. rewrite Lf, nth_error_skipn_add in Hn.
+      replace (j + (i - j))%nat with i in Hn by lia. apply Ho. exact Hn.
+Qed.
+
+Lemma view_idx_pwc : forall s id torn v, Jc s -> view s (IdxP id) torn = Some v -> pwc id v s.
+Proof.
+  intros s id torn v (_ & _ & Hj3 & Hj4 & Hj5) Hv. unfold view in Hv.
+  destruct (sfiles s (IdxP id)) as [c|] eqn:Ec; [|discriminate].
+  pose proof (Hj3 _ _ Ec) as Hgc.
+  destruct torn as [j|]; [|inversion Hv; subst; apply pwc_good; exact Hgc].
+  destruct (slast s (IdxP id)) as [o|] eqn:Eo; [|inversion Hv; subst; apply pwc_good; exact Hgc].
+  inversion Hv; subst. pose proof (Hj4 _ _ Eo) as Hgo.
+  destruct (Hj5 _ _ Eo) as (c' & Ec' & Hn). rewrite Ec in Ec'. inversion Ec'; subst c'.
+  apply pwc_mix; [apply pwc_good; exact Hgc|apply pwc_good; exact Hgo|].
+  destruct Hgc as [->|(d & tm & Hps & -> & _)]; [contradiction|]. rewrite (entry_length _ _ _ Hps).
+  destruct Hgo as [->|(d' & tm' & Hps' & -> & _)]; [cbn; lia|rewrite (entry_length _ _ _ Hps'); lia].
+Qed.
+
+Lemma pwc_app_read : forall id acc v need s, pwc id acc s -> pwc id v s ->
+  pwc id (acc ++ firstn need (skipn (length acc) v)) s.
+Proof.
+  intros id acc v need s Ha Hv i b Hn. destruct (lt_dec i (length acc)) as [L|L].
+  - rewrite nth_error_app1 in Hn by exact L. apply Ha. exact Hn.
+  - rewrite nth_error_app2 in Hn by lia. apply nth_error_firstn_some in Hn. rewrite nth_error_skipn_add in Hn.
+    replace (length acc + (i - length acc))%nat with i in Hn by lia. apply Hv. exact Hn.
+Qed.
+
+Lemma valid_read_full_pwc : forall A (Q : A -> sys -> Prop) id fuel need acc (k : bytes -> prog A),
+  (forall e, validc (pwc id e) Q (k e)) ->
+  validc (pwc id acc) Q (read_full fuel (IdxP id) (length acc) need acc k).
+Proof.
+  intros A Q id fuel. induction fuel as [|f IH]; intros need acc k Hk; cbn [read_full]; [apply Hk|].
+  destruct (Nat.eqb need 0); [apply Hk|].
+  apply (v_op _ _ _ _ _ _ (fun r => match r with RBytes b => pwc id (acc ++ b) | _ => pwc id acc end)); [apply pwc_stable| |].
+  { intros s torn Js Ha. pose proof (cstep_observing (ORead (IdxP id) (length acc) need) torn s I) as Hg.
+    split; [exact Hg|]. cbn [cstep fst snd]. destruct (view s (IdxP id) torn) as [v|] eqn:Ev; [|exact Ha].
+    apply pwc_app_read; [exact Ha|]. eapply view_idx_pwc; eassumption. }
+  intros r. destruct r as [| |n|b|n]; try apply Hk.
+  destruct (Nat.eqb (length b) 0) eqn:Eb.
+  - apply Nat.eqb_eq in Eb. destruct b; [|discriminate]. rewrite app_nil_r. apply Hk.
+  - rewrite <- app_length. apply IH. exact Hk.
+Qed.
+
+(* what is known of the output an assembled entry names: if it is the hash of a content of U,
+   that content was stored for this id by a Put and its file is complete *)
+Definition out_ok (id out : bytes) (s : sys) : Prop :=
+  forall d0, U d0 -> H d0 = out -> (exists tm, PS id d0 tm) /\ sfiles s (DatP out) = Some d0.
+
+Lemma out_ok_stable : forall id out, stablec (out_ok id out).
+Proof.
+  intros id out s s' Js Ho Hg d0 Ud0 Hh. destruct (Ho d0 Ud0 Hh) as [Hp Hf]. split; [exact Hp|].
+  subst out. exact (complete_stable d0 Ud0 s s' Js Hf Hg).
+Qed.
+
+Lemma pwc_parse_out : forall id e out size tm s,
+  no_hybrid H U -> pwc id e s -> parse_entry e id = Some (out, size, tm) -> out_ok id out s.
+Proof.
+  intros id e out size tm s Hnh Hpw Ep d0 Ud0 Hh.
+  destruct (parse_entry_strict _ _ _ _ _ Ep) as (_ & hid & hout & ss & st & Es & Lh & Lo & _ & _ & Hi & Ho & _).
+  assert (length id = hash_size_n) as Li.
+  { apply hex_decode_length in Hi. pose proof hex_size_hash. lia. }
+  subst out.
+  apply (Hnh (fun d => (exists t, PS id d t) /\ sfiles s (DatP (H d)) = Some d) hout d0 Ud0 Ho).
+  intros k b Hn.
+  assert (k < length hout)%nat as Lk by (apply nth_error_Some; congruence).
+  assert (nth_error e (3 + hex_size_n + 1 + k) = Some b) as Hc.
+  { rewrite Es. unfold entry_shape. rewrite nth_error_entry_out by assumption. exact Hn. }
+  destruct (Hpw _ _ Hc) as (d & t & Hps & Hf & He).
+  destruct (PS_ok _ _ _ Hps) as (Ud & _).
+  exists d. split; [exact Ud|]. split; [split; [exists t; exact Hps|exact Hf]|].
+  unfold entry in He. destruct (encode_entry_prefix id (H d) (Z.of_nat (length d)) t) as [X EX]. rewrite EX in He.
+  rewrite nth_error_entry_out in He; [exact He| |].
+  - rewrite hex_length, Li. symmetry; apply hex_size_hash.
+  - rewrite hex_length, H_len. pose proof hex_size_hash. lia.
+Qed.
+
+Lemma valid_used_st : forall A (P : sys -> Prop) (Q : A -> sys -> Prop) p (k : prog A),
+  stablec P -> validc P Q k -> validc P Q (used_prog p k).
+Proof.
+  intros A P Q p k St Hk. unfold used_prog. apply valid_observe; [exact I|exact St|]. intros r.
+  destruct r; try exact Hk; (apply valid_observe; [exact I|exact St|]; intros _; exact Hk).
+Qed.
+
+Lemma valid_get_pwc : forall id, no_hybrid H U ->
+  validc (fun _ => True) (fun e s => match e with Some (out, _, _) => out_ok id out s | None => True end) (get_prog id).
+Proof.
+  intros id Hnh. unfold get_prog.
+  apply valid_observe; [exact I|stab|]. intros r.
+  destruct r; try (apply v_ret; [stab|auto]).
+  eapply valid_weaken; [|stab|intros s _ _; apply (pwc_nil id s)].
+  apply (valid_read_full_pwc _ _ id _ _ []).
+  intros e. destruct (parse_entry e id) as [[[out size] tm]|] eqn:Ep.
+  - apply valid_used_st; [apply pwc_stable|]. apply valid_observe; [exact I|apply pwc_stable|]. intros _.
+    apply v_ret; [apply pwc_stable|]. intros s _ Hpw. eapply pwc_parse_out; eassumption.
+  - apply valid_observe; [exact I|apply pwc_stable|]. intros _. apply v_ret; [apply pwc_stable|auto].
+Qed.
+
+(* what GetFile guarantees under concurrency: the named file holds exactly a content that a Put
+   stored for that very id, whose hash is the reported OutputID and whose length the reported size *)
+Definition file_post (id : bytes) (l : lookup path) (s : sys) : Prop :=
+  match l with
+  | Found p out size _ =>
+      exists d, (exists tm, PS id d tm) /\ out = H d /\ p = DatP (H d) /\ size = Z.of_nat (length d) /\ sfiles s p = Some d
+  | NotFound => True
+  end.
+
+Lemma file_post_stable : forall id l, stablec (file_post id l).
+Proof.
+  intros id l. destruct l as [|p out size tm]; [stab|].
+  intros s s' Js (d & (t & Hps) & -> & -> & -> & Hf) Hg. exists d. repeat split; eauto.
+  destruct (PS_ok _ _ _ Hps) as (Ud & _). exact (complete_stable d Ud s s' Js Hf Hg).
+Qed.
+
+Lemma valid_get_file_strong : forall id, no_hybrid H U ->
+  validc (fun _ => True) (file_post id) (get_file_prog id).
+Proof.
+  intros id Hnh. unfold get_file_prog.
+  eapply valid_bind; [apply (valid_get_pwc id Hnh)|].
+  intros [[[out size] tm]|]; [|apply v_ret; [stab|intros; exact I]].
+  unfold output_file_prog, used_prog. cbn [bind].
+  assert (validc (out_ok id out) (file_post id)
+            (Op (OStat (DatP out)) (fun r =>
+               match r with
+               | RSize n => if Z.eqb (Z.of_nat n) size then Ret (Found (DatP out) out size tm) else Ret NotFound
+               | _ => Ret NotFound end))) as Hstat.
+  { apply (v_op _ _ _ _ _ _ (fun r s => match r with
+                                         | RSize n => exists d, (exists t, PS id d t) /\ out = H d /\ n = length d /\ sfiles s (DatP out) = Some d
+                                         | _ => True end)); [apply out_ok_stable| |].
+    - intros s torn Js Ho. split; [apply (cstep_observing (OStat (DatP out)) torn s I)|].
+      cbn [cstep fst snd]. destruct (sfiles s (DatP out)) as [c|] eqn:Ec; [|exact I].
+      pose proof Js as (Hi1 & _). destruct (Hi1 _ _ Ec) as (d0 & Ud0 & Hh & Hp).
+      destruct (Ho d0 Ud0 Hh) as [Hps Hf]. rewrite Ec in Hf. inversion Hf; subst c.
+      exists d0. auto.
+    - intros r. destruct r as [| |n|b|n]; try (apply v_ret; [stab|intros; exact I]).
+      assert (stablec (fun s => exists d, (exists t, PS id d t) /\ out = H d /\ n = length d /\ sfiles s (DatP out) = Some d)) as St.
+      { intros s s' Js (d & (t & Hps) & -> & -> & Hf) Hg. exists d. repeat split; eauto.
+        destruct (PS_ok _ _ _ Hps) as (Ud & _). exact (complete_stable d Ud s s' Js Hf Hg). }
+      destruct (Z.eqb (Z.of_nat n) size) eqn:En; [|apply v_ret; [exact St|intros; exact I]].
+      apply Z.eqb_eq in En. apply v_ret; [exact St|].
+      intros s _ (d & Hps & -> & -> & Hf). cbn [file_post]. exists d. repeat split; auto. }
+  apply valid_observe; [exact I|apply out_ok_stable|]. intros r.
+  destruct r; cbn [bind]; try exact Hstat; (apply valid_observe; [exact I|apply out_ok_stable|]; intros _; exact Hstat).
+Qed.
+
+Definition post3 (c : call) (r : cres) (s : sys) : Prop :=
+  post c r s /\ match c, r with CGetFile id, XFile l => file_post id l s | _, _ => True end.
+
+Lemma post3_stable : forall c r, stablec (post3 c r).
+Proof.
+  intros c r. apply and_stable; [apply post_stable|]. destruct c, r; try stab. apply file_post_stable.
+Qed.
+
+Lemma call_valid3 : no_hybrid H U -> forall c, call_ok c -> validc (fun _ => True) (post3 c) (call_prog H c).
+Proof.
+  intros Hnh c Hok. destruct c as [id chunks tm|id rd tm|id|id|id];
+    try (eapply valid_post_weaken; [apply (call_valid _ Hok)|intros a s Hp; split; [exact Hp|destruct a; exact I]]).
+  cbn [call_prog]. apply valid_bind_ret; [|intros b; apply (post3_stable (CGetFile id) b)].
+  eapply valid_post_weaken; [apply (valid_get_file_strong id Hnh)|].
+  intros l s Hb. split; [exact I|exact Hb].
+Qed.
+
+(* get_file_conc: a GetFile interleaved operation by operation with any writers, its entry reads
+   possibly torn, names only a file that holds exactly a content some Put stored for that very
+   id, with the reported OutputID its hash and the reported size its length -- and that file
+   keeps holding it in every later state *)
+Theorem get_file_conc : no_hybrid H U ->
+  forall callss fs0 sched,
+  Jc (init_sys fs0) -> Forall (Forall call_ok) callss ->
+  forall i calls cl k id l,
+  nth_error callss i = Some calls ->
+  nth_error (fst (run_conc H sched (map (start H) callss, init_sys fs0))) i = Some cl ->
+  nth_error calls k = Some (CGetFile id) -> nth_error (results cl) k = Some (XFile l) ->
+  file_post id l (snd (run_conc H sched (map (start H) callss, init_sys fs0))).
+Proof.
+  intros Hnh callss fs0 sched J0 Hok i calls cl k id l Ecalls Ecl Ecall Eres.
+  assert (sinv Jc Gc post3 call_ok callss (run_conc H sched (map (start H) callss, init_sys fs0))) as [_ Hall].
+  { apply (run_conc_sound Jc Gc Gc_refl Gc_J H post3 post3_stable call_ok (call_valid3 Hnh)).
+    apply (sinv_init Jc Gc H post3 call_ok (call_valid3 Hnh)); assumption. }
+  pose proof (Forall2_nth _ _ _ _ _ _ _ _ Hall Ecalls Ecl) as (_ & done & Hres & Hcur).
+  assert (nth_error done k = Some (CGetFile id)) as Edone.
+  { assert (k < length done)%nat as Lk.
+    { rewrite (Forall2_len _ _ _ _ _ Hres). apply nth_error_Some. congruence. }
+    destruct (cur cl) as [p|].
+    - destruct Hcur as (c & P & Ec & _). rewrite Ec in Ecall. rewrite nth_error_app1 in Ecall by exact Lk. exact Ecall.
+    - destruct Hcur as [Ec _]. rewrite <- Ec. exact Ecall. }
+  pose proof (Forall2_nth _ _ _ _ _ _ _ _ Hres Edone Eres) as [_ Hb]. exact Hb.
+Qed.
+
+(* ---- re-storing: an id whose Puts all carry the same content, stored before the clients start *)
+Section Restore.
+Variable rid d0 : bytes.
+Hypothesis Hsingle : forall d tm, PS rid d tm -> d = d0 /\ (10 ^ 18 <= tm < 2 * 10 ^ 18)%Z.
+
+(* the entry is in place (and was, before the most recent write), the output is complete (and was) *)
+Definition rest (s : sys) : Prop :=
+  (exists c, sfiles s (IdxP rid) = Some c /\ c <> []) /\
+  (forall o, slast s (IdxP rid) = Some o -> o <> []) /\
+  sfiles s (DatP (H d0)) = Some d0 /\
+  (slast s (DatP (H d0)) = None \/ slast s (DatP (H d0)) = Some d0).
+
+Hypothesis Ud0 : U d0.
+
+Lemma rest_stable : stablec rest.
+Proof.
+  intros s s' Js ((c & Ec & Hn) & Ho & Hd & Hl) Hg. pose proof Hg as [Hgr Hj].
+  destruct (Hgr _ _ Ec) as (c' & Ec' & Hp & Hr). destruct (Hgr _ _ Hd) as (x & Ex & _ & Hrd).
+  pose proof (complete_stable d0 Ud0 s s' Js Hd Hg) as Hd'.
+  split; [exists c'; split; [exact Ec'|apply Hp; exact Hn]|]. split; [|split; [exact Hd'|]].
+  - intros o Eo. destruct Hr as [E|[E|E]]; rewrite E in Eo; [apply Ho; exact Eo|discriminate|inversion Eo; subst; exact Hn].
+  - destruct Hrd as [E|[E|E]]; rewrite E; auto.
+Qed.
+
+Definition Jr (s : sys) : Prop := Jc s /\ rest s.
+
+Lemma Gc_Jr : forall s s', Jr s -> Gc s s' -> Jr s'.
+Proof. intros s s' [Js Hr] Hg. split; [eapply Gc_J; eassumption|eapply rest_stable; eassumption]. Qed.
+
+Notation validr := (valid Jr Gc).
+
+Lemma stable_r : forall P, stablec P -> stable Jr Gc P.
+Proof. intros P HP s s' [Js _] Ps Hg. eapply HP; eassumption. Qed.
+
+Definition good_view (v : bytes) : Prop :=
+  length v = entry_size_n /\ exists t', parse_entry v rid = Some (H d0, Z.of_nat (length d0), t').
+
+Lemma entry_single : forall fs c, good_idx fs rid c -> c <> [] ->
+  exists tm, PS rid d0 tm /\ c = entry rid d0 tm.
+Proof.
+  intros fs c [->|(d & tm & Hps & -> & _)] Hn; [contradiction|].
+  destruct (Hsingle _ _ Hps) as [-> _]. exists tm. auto.
+Qed.
+
+Lemma mix_good : forall j t1 t0, PS rid d0 t1 -> PS rid d0 t0 -> good_view (mix j (entry rid d0 t1) (entry rid d0 t0)).
+Proof.
+  intros j t1 t0 H1 H0. destruct (PS_ok _ _ _ H1) as (_ & Li & _ & Hs).
+  destruct (Hsingle _ _ H1) as [_ R1]. destruct (Hsingle _ _ H0) as [_ R0].
+  split.
+  - unfold mix. rewrite app_length, firstn_length, skipn_length, (entry_length _ _ _ H1), (entry_length _ _ _ H0). lia.
+  - destruct (mix_entries_parse rid (H d0) (Z.of_nat (length d0)) t1 t0 j Li (H_len d0)) as (t' & _ & Hp); try assumption.
+    + split; [apply Nat2Z.is_nonneg|exact Hs].
+    + exists t'. exact Hp.
+Qed.
+
+Lemma view_idx_rest : forall s torn v, Jr s -> view s (IdxP rid) torn = Some v -> good_view v.
+Proof.
+  intros s torn v [(_ & _ & Hj3 & Hj4 & _) ((c & Ec & Hn) & Ho & _)] Hv. unfold view in Hv. rewrite Ec in Hv.
+  destruct (entry_single _ c (Hj3 _ _ Ec) Hn) as (t1 & P1 & ->).
+  assert (good_view (entry rid d0 t1)) as Hplain.
+  { pose proof (mix_good (length (entry rid d0 t1)) t1 t1 P1 P1) as Hm. unfold mix in Hm. rewrite firstn_skipn in Hm. exact Hm. }
+  destruct torn as [j|]; [|inversion Hv; subst; exact Hplain].
+  destruct (slast s (IdxP rid)) as [o|] eqn:Eo; [|inversion Hv; subst; exact Hplain].
+  inversion Hv; subst. destruct (entry_single _ o (Hj4 _ _ Eo) (Ho _ eq_refl)) as (t0 & P0 & ->).
+  apply mix_good; assumption.
+Qed.
+
+Lemma view_dat_rest : forall s torn v, Jr s -> view s (DatP (H d0)) torn = Some v -> v = d0.
+Proof.
+  intros s torn v [_ (_ & _ & Hd & Hl)] Hv. unfold view in Hv. rewrite Hd in Hv.
+  destruct torn as [j|]; [|inversion Hv; reflexivity].
+  destruct Hl as [E|E]; rewrite E in Hv; inversion Hv; [reflexivity|]. unfold mix. apply firstn_skipn.
+Qed.
+
+(* Get of the re-stored id: always an entry for d0 *)
+Lemma valid_get_rest :
+  validr (fun _ => True) (fun e _ => exists t', e = Some (H d0, Z.of_nat (length d0), t')) (get_prog rid).
+Proof.
+  unfold get_prog. set (p := IdxP rid).
+  assert (stable Jr Gc (fun _ : sys => True)) as St by (apply stable_r; apply true_stable).
+  apply (v_op _ _ _ _ _ _ (fun r _ => r = ROk)); [exact St| |].
+  { intros s torn [Js Hr] _. split; [apply cstep_open_ro|]. rewrite cstep_open_ro_res.
+    destruct Hr as ((c & Ec & _) & _). unfold p. rewrite Ec. reflexivity. }
+  intros r. destruct r; try (eapply valid_weaken; [apply valid_false|apply stable_r; stab|intros s _ E; discriminate]).
+  assert (Nat.eqb entry_size_n 0 = false) as En0 by reflexivity.
+  cbn [read_full]. cbn [Nat.eqb].
+  apply (v_op _ _ _ _ _ _ (fun r _ => exists v, r = RBytes v /\ good_view v)); [apply stable_r; stab| |].
+  { intros s torn Js _. split; [apply (cstep_observing (ORead p 0 (S entry_size_n)) torn s I)|].
+    cbn [cstep fst snd]. destruct Js as [Jcs Hr]. pose proof Hr as ((c & Ec & _) & _).
+    destruct (view s p torn) as [v|] eqn:Ev; [|unfold view in Ev; unfold p in Ev; rewrite Ec in Ev; destruct torn; [destruct (slast s (IdxP rid))|]; discriminate].
+    pose proof (view_idx_rest s torn v (conj Jcs Hr) Ev) as Hg. exists v. split; [|exact Hg].
+    cbn [skipn]. f_equal. apply firstn_all2. destruct Hg as [L _]. lia. }
+  intros r. destruct r as [| |n|v|n];
+    try (eapply valid_weaken; [apply valid_false|apply stable_r; stab|intros s _ (v & E & _); discriminate]).
+  destruct (Nat.eqb (length v) 0) eqn:Ev0.
+  { eapply valid_weaken; [apply valid_false|apply stable_r; stab|].
+    intros s _ (v' & E & (L & _)). inversion E; subst v'. apply Nat.eqb_eq in Ev0. rewrite L in Ev0. discriminate. }
+  (* second Read: nothing more *)
+  destruct (Nat.eqb (S entry_size_n - length v) 0) eqn:Eneed.
+  { eapply valid_weaken; [apply valid_false|apply stable_r; stab|].
+    intros s _ (v' & E & (L & _)). inversion E; subst v'. rewrite L in Eneed.
+    replace (S entry_size_n - entry_size_n)%nat with 1%nat in Eneed by lia. discriminate. }
+  apply (v_op _ _ _ _ _ _ (fun r2 _ => good_view v /\ r2 = RBytes [])); [apply stable_r; stab| |].
+  { intros s torn Js (v' & E & Hg). inversion E; subst v'.
+    split; [apply (cstep_observing (ORead p (0 + length v) (S entry_size_n - length v)) torn s I)|]. split; [exact Hg|].
+    cbn [cstep fst snd]. destruct Js as [Jcs Hr]. pose proof Hr as ((c & Ec & _) & _).
+    destruct (view s p torn) as [v2|] eqn:Ev2; [|unfold view in Ev2; unfold p in Ev2; rewrite Ec in Ev2; destruct torn; [destruct (slast s (IdxP rid))|]; discriminate].
+    destruct (view_idx_rest s torn v2 (conj Jcs Hr) Ev2) as [L2 _]. destruct Hg as [L _].
+    rewrite skipn_all2 by lia. rewrite firstn_nil. reflexivity. }
+  intros r2. destruct r2 as [| |n|b|n];
+    try (eapply valid_weaken; [apply valid_false|apply stable_r; stab|intros s _ (_ & E); discriminate]).
+  destruct b as [|x b]; [|eapply valid_weaken; [apply valid_false|apply stable_r; stab|intros s _ (_ & E); discriminate]].
+  cbn [length Nat.eqb app].
+  destruct (parse_entry v rid) as [[[out size] tm]|] eqn:Ep.
+  - unfold used_prog.
+    apply (valid_strengthen Jc Jr Gc); [intros s [Js _]; exact Js|].
+    apply valid_observe; [exact I|stab|]. intros r3.
+    assert (validc (fun _ : sys => good_view v /\ RBytes [] = RBytes [])
+              (fun e _ => exists t', e = Some (H d0, Z.of_nat (length d0), t'))
+              (Op (OClose p) (fun _ => Ret (Some (out, size, tm))))) as Hfin.
+    { apply valid_observe; [exact I|stab|]. intros _. apply v_ret; [stab|].
+      intros s _ ((_ & t' & Hp) & _). rewrite Ep in Hp. inversion Hp; subst. exists t'. reflexivity. }
+    destruct r3; try exact Hfin; (apply valid_observe; [exact I|stab|]; intros _; exact Hfin).
+  - eapply valid_weaken; [apply valid_false|apply stable_r; stab|].
+    intros s _ ((_ & t' & Hp) & _). rewrite Ep in Hp. discriminate.
+Qed.
+
+Lemma valid_absurd_r : forall A (P : sys -> Prop) (Q : A -> sys -> Prop) p,
+  stable Jr Gc P -> (forall s, P s -> False) -> validr P Q p.
+Proof.
+  intros A P Q p Hs Hf. eapply valid_weaken; [apply (valid_false Jr Gc)|exact Hs|]. intros s _ Ps. exact (Hf s Ps).
+Qed.
+
+Lemma valid_observe_r : forall A (P : sys -> Prop) (Q : A -> sys -> Prop) o k,
+  observing o -> stable Jr Gc P -> (forall r, validr P Q (k r)) -> validr P Q (Op o k).
+Proof.
+  intros A P Q o k Ho Hs Hk. apply (v_op _ _ _ _ _ _ (fun _ => P)); [exact Hs| |exact Hk].
+  intros s torn Js Ps. pose proof (cstep_observing o torn s Ho) as Hg. split; [exact Hg|].
+  eapply Hs; eassumption.
+Qed.
+
+Lemma valid_used_r : forall A (X : Prop) (Q : A -> sys -> Prop) p (k : prog A),
+  validr (fun _ => X) Q k -> validr (fun _ => X) Q (used_prog p k).
+Proof.
+  intros A X Q p k Hk. assert (stable Jr Gc (fun _ : sys => X)) as St by (apply stable_r; stab).
+  unfold used_prog. apply valid_observe_r; [exact I|exact St|]. intros r.
+  destruct r; try exact Hk; (apply valid_observe_r; [exact I|exact St|]; intros _; exact Hk).
+Qed.
+
+Definition found_bytes (l : lookup bytes) : Prop := exists t', l = Found d0 (H d0) (Z.of_nat (length d0)) t'.
+Definition found_file (l : lookup path) : Prop := exists t', l = Found (DatP (H d0)) (H d0) (Z.of_nat (length d0)) t'.
+
+Lemma valid_get_bytes_rest : validr (fun _ => True) (fun l _ => found_bytes l) (get_bytes_prog H rid).
+Proof.
+  unfold get_bytes_prog. eapply valid_bind; [apply valid_get_rest|].
+  intros [[[out size] tm]|]; [|apply valid_absurd_r; [apply stable_r; stab|intros s (t' & E); discriminate]].
+  destruct (bytes_eqb out (H d0)) eqn:Eo;
+    [|apply valid_absurd_r; [apply stable_r; stab|intros s (t' & E); inversion E; subst; rewrite bytes_eqb_refl in Eo; discriminate]].
+  apply bytes_eqb_eq in Eo. subst out.
+  destruct (Z.eqb size (Z.of_nat (length d0))) eqn:Es;
+    [|apply valid_absurd_r; [apply stable_r; stab|intros s (t' & E); inversion E; subst; rewrite Z.eqb_refl in Es; discriminate]].
+  apply Z.eqb_eq in Es. subst size.
+  unfold output_file_prog.
+  assert (forall (k : prog (lookup bytes)), validr (fun _ => True) (fun l _ => found_bytes l) k ->
+            validr (fun _ => exists t', Some (H d0, Z.of_nat (length d0), tm) = Some (H d0, Z.of_nat (length d0), t'))
+                   (fun l _ => found_bytes l) k) as Hw.
+  { intros k Hk. eapply valid_weaken; [exact Hk|apply stable_r; stab|intros; exact I]. }
+  assert (stable Jr Gc (fun _ : sys => True)) as St by (apply stable_r; stab).
+  unfold used_prog. cbn [bind]. apply Hw.
+  assert (validr (fun _ => True) (fun l _ => found_bytes l)
+            (Op (OReadAll (DatP (H d0))) (fun r =>
+               let data := match r with RBytes b => b | _ => [] end in
+               if bytes_eqb (H data) (H d0) then Ret (Found data (H d0) (Z.of_nat (length d0)) tm) else Ret NotFound))) as Hread.
+  { apply (v_op _ _ _ _ _ _ (fun r _ => r = RBytes d0)); [exact St| |].
+    - intros s torn Js _. split; [apply (cstep_observing (OReadAll (DatP (H d0))) torn s I)|].
+      cbn [cstep fst snd]. destruct (view s (DatP (H d0)) torn) as [v|] eqn:Ev.
+      + rewrite (view_dat_rest s torn v Js Ev). reflexivity.
+      + exfalso. destruct Js as [_ (_ & _ & Hd & _)]. unfold view in Ev. rewrite Hd in Ev.
+        destruct torn; [destruct (slast s (DatP (H d0)))|]; discriminate.
+    - intros r. destruct r as [| |n|b|n]; try (apply valid_absurd_r; [apply stable_r; stab|intros s E; discriminate]).
+      cbv zeta. destruct (bytes_eqb (H b) (H d0)) eqn:Eh.
+      + apply v_ret; [apply stable_r; stab|]. intros s _ E. inversion E; subst. exists tm. reflexivity.
+      + apply valid_absurd_r; [apply stable_r; stab|]. intros s E. inversion E; subst. rewrite bytes_eqb_refl in Eh. discriminate. }
+  apply valid_observe_r; [exact I|exact St|]. intros r.
+  destruct r; cbn [bind]; try exact Hread; (apply valid_observe_r; [exact I|exact St|]; intros _; exact Hread).
+Qed.
+
+Lemma valid_get_file_rest : validr (fun _ => True) (fun l _ => found_file l) (get_file_prog rid).
+Proof.
+  unfold get_file_prog. eapply valid_bind; [apply valid_get_rest|].
+  intros [[[out size] tm]|]; [|apply valid_absurd_r; [apply stable_r; stab|intros s (t' & E); discriminate]].
+  destruct (bytes_eqb out (H d0)) eqn:Eo;
+    [|apply valid_absurd_r; [apply stable_r; stab|intros s (t' & E); inversion E; subst; rewrite bytes_eqb_refl in Eo; discriminate]].
+  apply bytes_eqb_eq in Eo. subst out.
+  destruct (Z.eqb size (Z.of_nat (length d0))) eqn:Es;
+    [|apply valid_absurd_r; [apply stable_r; stab|intros s (t' & E); inversion E; subst; rewrite Z.eqb_refl in Es; discriminate]].
+  apply Z.eqb_eq in Es. subst size.
+  assert (stable Jr Gc (fun _ : sys => True)) as St by (apply stable_r; stab).
+  eapply valid_weaken; [|apply stable_r; stab|intros; exact I].
+  unfold output_file_prog, used_prog. cbn [bind].
+  assert (validr (fun _ => True) (fun l _ => found_file l)
+            (Op (OStat (DatP (H d0))) (fun r =>
+               match r with
+               | RSize n => if Z.eqb (Z.of_nat n) (Z.of_nat (length d0))
+                            then Ret (Found (DatP (H d0)) (H d0) (Z.of_nat (length d0)) tm) else Ret NotFound
+               | _ => Ret NotFound end))) as Hstat.
+  { apply (v_op _ _ _ _ _ _ (fun r _ => r = RSize (length d0))); [exact St| |].
+    - intros s torn Js _. split; [apply (cstep_observing (OStat (DatP (H d0))) torn s I)|].
+      cbn [cstep fst snd]. destruct Js as [_ (_ & _ & Hd & _)]. rewrite Hd. reflexivity.
+    - intros r. destruct r as [| |n|b|n]; try (apply valid_absurd_r; [apply stable_r; stab|intros s E; discriminate]).
+      destruct (Z.eqb (Z.of_nat n) (Z.of_nat (length d0))) eqn:En.
+      + apply v_ret; [apply stable_r; stab|]. intros s _ _. exists tm. reflexivity.
+      + apply valid_absurd_r; [apply stable_r; stab|]. intros s E. inversion E; subst. rewrite Z.eqb_refl in En. discriminate. }
+  apply valid_observe_r; [exact I|exact St|]. intros r.
+  destruct r; cbn [bind]; try exact Hstat; (apply valid_observe_r; [exact I|exact St|]; intros _; exact Hstat).
+Qed.
+
+Definition rpost (c : call) (r : cres) : Prop :=
+  match c with
+  | CGetBytes i => i = rid -> exists l, r = XBytes l /\ found_bytes l
+  | CGetFile i => i = rid -> exists l, r = XFile l /\ found_file l
+  | _ => True
+  end.
+
+Definition post_r (c : call) (r : cres) (s : sys) : Prop := post c r s /\ rpost c r.
+
+Lemma post_r_stable : forall c r, stable Jr Gc (post_r c r).
+Proof. intros c r. apply stable_r. apply and_stable; [apply post_stable|apply pure_stable]. Qed.
+
+Lemma call_valid_r : forall c, call_ok c -> validr (fun _ => True) (post_r c) (call_prog H c).
+Proof.
+  intros c Hok.
+  assert (validr (fun _ => True) (post c) (call_prog H c)) as Hbase.
+  { apply (valid_strengthen Jc Jr Gc); [intros s [Js _]; exact Js|apply call_valid; exact Hok]. }
+  destruct c as [id chunks tm|id rd tm|id|id|id];
+    try (eapply valid_post_mono; [exact Hbase|intros a s Hp; split; [exact Hp|exact I]]).
+  - (* GetBytes *)
+    destruct (bytes_eqb id rid) eqn:Ei.
+    + apply bytes_eqb_eq in Ei. subst id. cbn [call_prog].
+      eapply valid_bind; [apply valid_get_bytes_rest|]. intros l.
+      apply v_ret; [apply stable_r; stab|]. intros s _ Hf. split; [exact I|]. intros _. exists l. auto.
+    + eapply valid_post_mono; [exact Hbase|]. intros a s Hp. split; [exact Hp|].
+      cbn [rpost]. intros E. subst id. rewrite bytes_eqb_refl in Ei. discriminate.
+  - (* GetFile *)
+    destruct (bytes_eqb id rid) eqn:Ei.
+    + apply bytes_eqb_eq in Ei. subst id. cbn [call_prog].
+      eapply valid_bind; [apply valid_get_file_rest|]. intros l.
+      apply v_ret; [apply stable_r; stab|]. intros s _ Hf. split; [exact I|]. intros _. exists l. auto.
+    + eapply valid_post_mono; [exact Hbase|]. intros a s Hp. split; [exact Hp|].
+      cbn [rpost]. intros E. subst id. rewrite bytes_eqb_refl in Ei. discriminate.
+Qed.
+
+(* restore_invisible: however the lookups of the re-stored id are interleaved, operation by
+   operation, with any writers, and whatever torn views they are served, every GetBytes and
+   every GetFile of that id finds the content *)
+Theorem restore_invisible : forall callss fs0 sched,
+  Jc (init_sys fs0) -> Forall (Forall call_ok) callss ->
+  idx_nonempty rid (init_sys fs0) ->
+  forall i calls cl k r,
+  nth_error callss i = Some calls -> nth_error (fst (run_conc H sched (map (start H) callss, init_sys fs0))) i = Some cl ->
+  nth_error (results cl) k = Some r ->
+  (nth_error calls k = Some (CGetBytes rid) -> exists l, r = XBytes l /\ found_bytes l) /\
+  (nth_error calls k = Some (CGetFile rid) -> exists l, r = XFile l /\ found_file l).
+Proof.
+  intros callss fs0 sched J0 Hok (c & Ec & Hn) i calls cl k r Ecalls Ecl Eres.
+  assert (Jr (init_sys fs0)) as Jr0.
+  { split; [exact J0|]. pose proof J0 as (_ & _ & Hj3 & _).
+    destruct (entry_single _ c (Hj3 _ _ Ec) Hn) as (tm & Hps & ->).
+    split; [exists (entry rid d0 tm); split; [exact Ec|exact Hn]|]. split; [intros o Ho; discriminate|].
+    split; [|left; reflexivity].
+    destruct (Hj3 _ _ Ec) as [E|(d & t & Hp & E & Hf)]; [contradiction|].
+    destruct (Hsingle _ _ Hp) as [-> _]. exact Hf. }
+  assert (sinv Jr Gc post_r call_ok callss (run_conc H sched (map (start H) callss, init_sys fs0))) as [_ Hall].
+  { apply (run_conc_sound Jr Gc Gc_refl Gc_Jr H post_r post_r_stable call_ok call_valid_r).
+    apply (sinv_init Jr Gc H post_r call_ok call_valid_r); assumption. }
+  pose proof (Forall2_nth _ _ _ _ _ _ _ _ Hall Ecalls Ecl) as (_ & done & Hres & Hcur).
+  assert (forall c0, nth_error calls k = Some c0 -> nth_error done k = Some c0) as Hdone.
+  { intros c0 Ecall. assert (k < length done)%nat as Lk.
+    { rewrite (Forall2_len _ _ _ _ _ Hres). apply nth_error_Some. congruence. }
+    destruct (cur cl) as [p|].
+    - destruct Hcur as (c1 & P & Ec1 & _). rewrite Ec1 in Ecall. rewrite nth_error_app1 in Ecall by exact Lk. exact Ecall.
+    - destruct Hcur as [Ec1 _]. rewrite <- Ec1. exact Ecall. }
+  split; intros Ecall; pose proof (Forall2_nth _ _ _ _ _ _ _ _ Hres (Hdone _ Ecall) Eres) as [_ Hb];
+    cbn [rpost] in Hb; apply Hb; reflexivity.
+Qed.
+
+End Restore.
+
 (* ---- C11: what holds in every state every schedule can reach *)
 Definition conc_run (callss : list (list call)) (fs0 : files) (sched : list (nat * option nat)) : list client * sys :=
   run_conc H sched (map (start H) callss, init_sys fs0).
@@ -1113,16 +1670,7 @@ Proof.
   rewrite Hb in Hg. inversion Hg; subst. eexists. split; [eassumption|split; reflexivity].
 Qed.
 
-Lemma Forall2_nth : forall A B (R : A -> B -> Prop) l1 l2 k a b,
-  Forall2 R l1 l2 -> nth_error l1 k = Some a -> nth_error l2 k = Some b -> R a b.
-Proof.
-  intros A B R l1 l2 k a b Hf. revert k. induction Hf as [|x y l1 l2 Hxy Hf IH]; intros k Ha Hb.
-  - destruct k; discriminate.
-  - destruct k as [|k]; cbn in *; [inversion Ha; inversion Hb; subst; exact Hxy|eapply IH; eassumption].
-Qed.
 
-Lemma Forall2_len : forall A B (R : A -> B -> Prop) l1 l2, Forall2 R l1 l2 -> length l1 = length l2.
-Proof. intros A B R l1 l2 Hf. induction Hf; cbn; congruence. Qed.
 
 (* lookup_is_some_put: a GetBytes interleaved operation by operation with any writers, and served
    torn views, returns only bytes that a Put of the system stored for that very id, with matching hash *)
@@ -1147,22 +1695,6 @@ Proof.
     - destruct Hcur as [Ec _]. rewrite <- Ec. exact Ecall. }
   pose proof (Forall2_nth _ _ _ _ _ _ _ _ Hres Edone Eres) as [_ Hb]. exact Hb.
 Qed.
-
-(* the statement for lookups of a re-stored id that are themselves interleaved, operation by
-   operation, with the writers (and may be given torn views of the entry being rewritten: the
-   timestamps must then mix to an int64, which 19-digit timestamps with the same leading digit do);
-   not proved here *)
-Definition restore_invisible_full_statement : Prop :=
-  forall callss fs0 sched id d0,
-  Jc (init_sys fs0) -> Forall (Forall call_ok) callss ->
-  idx_nonempty id (init_sys fs0) ->
-  (forall d tm, PS id d tm -> d = d0 /\ (10 ^ 18 <= tm < 2 * 10 ^ 18)%Z) ->
-  forall i calls cl k,
-  nth_error callss i = Some calls -> nth_error (fst (conc_run callss fs0 sched)) i = Some cl ->
-  (nth_error calls k = Some (CGetBytes id) -> forall r, nth_error (results cl) k = Some r ->
-     exists tm, r = XBytes (Found d0 (H d0) (Z.of_nat (length d0)) tm)) /\
-  (nth_error calls k = Some (CGetFile id) -> forall r, nth_error (results cl) k = Some r ->
-     exists tm, r = XFile (Found (DatP (H d0)) (H d0) (Z.of_nat (length d0)) tm)).
 
 End CacheRG.
 
@@ -1228,3 +1760,24 @@ Lemma lookup_is_some_put_hyps : forall H U PS, C11_hyps H U PS -> lookup_hyps H 
   nth_error calls k = Some (CGetBytes id) -> nth_error (results cl) k = Some (XBytes (Found d out size tm)) ->
   out = H d /\ exists tm', PS id d tm'.
 Proof. intros H U PS (H1 & H2 & H3). exact (lookup_is_some_put H U H1 H2 PS H3). Qed.
+
+Lemma restore_invisible_hyps : forall H U PS, C11_hyps H U PS ->
+  forall rid d0, (forall d tm, PS rid d tm -> d = d0 /\ (10 ^ 18 <= tm < 2 * 10 ^ 18)%Z) -> U d0 ->
+  forall callss fs0 sched,
+  Jc H U PS (init_sys fs0) -> Forall (Forall (call_ok PS)) callss ->
+  idx_nonempty rid (init_sys fs0) ->
+  forall i calls cl k r,
+  nth_error callss i = Some calls -> nth_error (fst (conc_run H callss fs0 sched)) i = Some cl ->
+  nth_error (results cl) k = Some r ->
+  (nth_error calls k = Some (CGetBytes rid) -> exists l, r = XBytes l /\ found_bytes H d0 l) /\
+  (nth_error calls k = Some (CGetFile rid) -> exists l, r = XFile l /\ found_file H d0 l).
+Proof. intros H U PS (H1 & H2 & H3). exact (restore_invisible H U H1 H2 PS H3). Qed.
+
+Lemma get_file_conc_hyps : forall H U PS, C11_hyps H U PS -> no_hybrid H U ->
+  forall callss fs0 sched,
+  Jc H U PS (init_sys fs0) -> Forall (Forall (call_ok PS)) callss ->
+  forall i calls cl k id l,
+  nth_error callss i = Some calls -> nth_error (fst (conc_run H callss fs0 sched)) i = Some cl ->
+  nth_error calls k = Some (CGetFile id) -> nth_error (results cl) k = Some (XFile l) ->
+  file_post H PS id l (snd (conc_run H callss fs0 sched)).
+Proof. intros H U PS (H1 & H2 & H3). exact (get_file_conc H U H1 H2 PS H3). Qed.
